@@ -25,6 +25,21 @@ def _calls(p, pred=None):
     return [e for e in p.events if e.kind == "call" and (pred is None or pred(e))]
 
 
+def _is_ptr_word(x):
+    """`self.ptr as usize`"""
+    return "ptr" in show(x) and not any(y[0] == "call" for y in subterms(x))
+
+
+def _mask_sig(p, term):
+    """(shape of the term, the calls that compute it with their type arguments)"""
+    import re
+    from .sym import event_type_args
+    subs = list(subterms(term)) + [strip(term)]
+    calls = sorted((e.ntarget or "", tuple(event_type_args(e))) for e in p.events
+                   if e.kind == "call" and e.result is not None and e.result in subs)
+    return (re.sub(r"#\d+", "", show(term)), tuple(calls))
+
+
 def rule_wrap_atomics(ctx):
     r = RuleResult("WRAP-ATOMICS", ["C13", "C14", "C17", "C18"],
                    "AtomicEpoch::{load,store,compare_exchange} and RawAtomic::{load,store,compare_exchange(_weak),fetch_or} are "
@@ -119,10 +134,21 @@ def rule_wrap_atomics(ctx):
         c = _calls(ps[0], lambda e: norm(e.target or "") == "std::sync::atomic::Atomic::fetch_or")
         ok = len(c) == 1 and "inner" in show(c[0].args[0]) and c[0].result in list(subterms(ps[0].ret))
         if ok:
+            # the mask is the one Tagged::tag reads the tag with (whose bit-level meaning BIT-TAGGED decides): the same
+            # term, computed by the same calls with the same type arguments - however the helper is named or placed
             v = strip(c[0].args[1])
             ok = isinstance(v, tuple) and v[0] == "bin" and v[1] == "BitAnd" and \
-                any(isinstance(x, tuple) and x[0] == "call" and norm(x[1]) == "ebr_impl::pointers::low_bits" for x in (v[2], v[3])) and \
                 any(strip(x) == ("arg", 2, b.local_name(2)) for x in (v[2], v[3]))
+            if ok:
+                mask = [x for x in (v[2], v[3]) if strip(x) != ("arg", 2, b.local_name(2))][0]
+                tb, tps = _ret_paths(ctx, "ebr_impl::pointers::Tagged::<T>::tag")
+                ok = len(tps) == 1
+                if ok:
+                    tv = strip(tps[0].ret)
+                    ok = isinstance(tv, tuple) and tv[0] == "bin" and tv[1] == "BitAnd"
+                    if ok:
+                        tmask = [x for x in (tv[2], tv[3]) if not _is_ptr_word(x)]
+                        ok = len(tmask) == 1 and _mask_sig(ps[0], mask) == _mask_sig(tps[0], tmask[0])
     r.instance("RawAtomic::fetch_or == one atomic fetch_or of (tag & low_bits) on its own cell", ok)
     if not ok:
         bad(b.name, "RawAtomic::fetch_or is not a single atomic fetch_or of the masked tag on its own cell", b)
@@ -247,6 +273,71 @@ def rule_default_collector(ctx):
     r.instance("default_collector() == collector()", ok)
     if not ok:
         r.violate(b.name, "collector", "default_collector() is not the collector the thread-local handle registers with", b.loc(0))
+    # there is ONE default collector: collector() initialises a static cell, and the initialiser runs under mutual
+    # exclusion - std's OnceLock/LazyLock, or a `Once::call_once` on a Once that lives in the cell.  Two racing first
+    # cs() calls must not both run Collector::new (the loser's participants sit in an orphaned registry that no
+    # try_advance of the surviving collector ever visits, and read a different clock)
+    colb = prog.body(COL)
+    tgs = [c.target or "" for (_, _, c) in colb.calls()]
+    cells = [x for x in prog.items.get("statics", []) if "Collector" in x.get("ty", "") and x["path"].startswith("ebr_impl::default::")]
+    okc = len(cells) == 1 and not cells[0].get("thread_local") and not cells[0].get("mutable")
+    if okc:
+        okc = False
+        for p in ctx.ex.paths(colb):
+            for e in p.events:
+                if e.kind in ("call", "hof") and e.args and "alloc" in show(e.args[0]) and "Collector" in show(e.args[0]):
+                    okc = True
+    r.instance("collector() hands out the content of one process-wide (non-thread-local, immutable) static cell", okc)
+    if not okc:
+        r.violate(COL, "cell", "the default collector does not live in exactly one process-wide static cell that collector() "
+                  "initialises and returns: threads would register with different collectors (different registries and clocks)",
+                  colb.loc(0))
+    std_once = any(norm(t).startswith(("std::sync::OnceLock", "std::sync::LazyLock", "std::sync::once_lock::OnceLock",
+                                       "std::sync::lazy_lock::LazyLock")) for t in tgs)
+    if std_once:
+        r.instance("collector() initialises its static through std's OnceLock/LazyLock", True)
+    else:
+        reach, work = set(), [COL]
+        while work:
+            v = work.pop()
+            if v in reach or v not in prog.bodies or v.startswith("ebr_impl::collector::") or v.startswith("ebr_impl::internal::"):
+                continue
+            reach.add(v)
+            work.extend((c.target or "") for (_, _, c) in prog.bodies[v].calls())
+            work.extend(x.name for x in prog.closures_of(v))
+        # closures handed to Once::call_once(_force) on a Once stored in the cell (reached through self)
+        guarded = set()
+        for v in reach:
+            vb = prog.bodies[v]
+            if vb.kind == "closure":
+                continue
+            for p in ctx.ex.paths(vb):
+                for e in p.events:
+                    if e.kind in ("call", "hof") and norm(e.target or "") in ("std::sync::Once::call_once", "std::sync::Once::call_once_force"):
+                        recv = show(e.args[0])
+                        if "self" in recv and "." in recv:
+                            guarded.update(e.callee.closure_args() if getattr(e, "callee", None) is not None else [])
+        nsites = 0
+        bad_sites = []
+        for v in sorted(reach):
+            for (bi, _, c) in prog.bodies[v].calls():
+                nt = norm(c.target or "")
+                if nt in ("std::ptr::mut_ptr::write", "std::ptr::write", "std::mem::MaybeUninit::write") or \
+                        (nt == "std::ops::FnOnce::call_once" and "once_lock" in v):
+                    nsites += 1
+                    if v not in guarded:
+                        bad_sites.append((v, bi, nt))
+        ok = nsites >= 2 and not bad_sites
+        r.instance("the default collector's cell is initialised only inside Once::call_once on the cell's own Once "
+                   "(%d initialising steps, guarded closures %s)" % (nsites, sorted(x.split("::")[-2] + "::" + x.split("::")[-1] for x in guarded)), ok)
+        if nsites < 2 and not bad_sites:
+            r.floor_failures.append("EBR-DEFAULT-COLLECTOR: found %d initialising steps of the default collector's cell, expected "
+                                    "at least 2 (anchor lost?)" % nsites)
+        for (v, bi, nt) in bad_sites:
+            r.violate(v, "init-race:" + nt.split("::")[-1], "the default collector's cell is initialised outside a "
+                      "`Once::call_once` of the cell's own Once: two threads whose first critical sections overlap both run "
+                      "Collector::new, the later write wins, and the participants already registered with the other collector "
+                      "are never visited by try_advance (and read another clock)", prog.bodies[v].loc(bi))
     # HANDLE's initialiser registers with collector()
     init = prog.body("ebr_impl::default::HANDLE::__rust_std_internal_init_fn")
     tg = [c.target for (_, _, c) in init.calls()]
